@@ -403,6 +403,10 @@ def eig(data, meta=None, sizes=(1, 1), **kwargs):
             s = np.sqrt(d)
             _U = U / s
             _V = (V / np.conjugate(s)).conj().T
+            # within a degenerate eigenvalue the two families of vectors are not paired: scaling cannot make them biorthogonal
+            VUfull = _V @ _U
+            if np.max(np.abs(VUfull - np.diag(np.diag(VUfull)))) > 1e-10:
+                raise ValueError("Left/right eigenvectors are not biorthogonal after scaling (repeated eigenvalues).")
         except ValueError as e:
             try:
                 # V.H @ U != I -> solve U.H @ V = I for V
